@@ -1,6 +1,6 @@
 """C04 — every pseudo-random mask is fresh (structural clauses)."""
 from ..flow import Flow, field_name
-from .common import copy_helpers, is_add_call
+from .common import copy_helpers, is_add_call, pass_body, same_file_family
 from ..facts import callee_name
 from .. import cfg as C
 from .. import vcai as V
@@ -523,9 +523,10 @@ def constructors(facts, rep):
 
 # -------------------------------------------------------------------- C04.X
 def dangling(facts, rep, vs, vidx, tb):
-    d = facts.body("optimizer::dangling_nodes_optimizer::optimize_graph_dangling_nodes")
-    if not rep.anchor("C04.X", "optimize_graph_dangling_nodes", d):
+    d_root = facts.body("optimizer::dangling_nodes_optimizer::optimize_graph_dangling_nodes")
+    if not rep.anchor("C04.X", "optimizer::dangling_nodes_optimizer::optimize_graph_dangling_nodes", d_root):
         return
+    d = pass_body(facts, d_root.id)
     fl = Flow(facts, d)
     adds = [bb for bb, t in d.calls() if is_add_call(facts, t)]
     if not rep.anchor("C04.X", "add_node_with_type in dangling pass", adds):
@@ -562,13 +563,19 @@ def dangling(facts, rep, vs, vidx, tb):
            "when useful_nodes.contains(node) holds, an iteration cannot return to the loop head without add_node_with_type"
            if not skipping else "a useful node can be skipped: an iteration reaches the next one without add_node_with_type", d.loc(h))
     # useful_nodes is filled from the output node and dependencies of useful nodes only
-    ins = [bb for bb, t in d.calls() if (callee_name(t) or "").endswith("::insert") and "HashSet" in (callee_name(t) or "")]
-    for k, bb in enumerate(ins):
-        ors = fl.origins(d.term(bb)["args"][1], (bb, None))
+    ins = []
+    for fb in same_file_family(facts, d_root.id):
+        ffl = fl if fb is d else Flow(facts, fb)
+        for bb, t in fb.calls():
+            cn_ = callee_name(t) or ""
+            if "HashSet" in cn_ and cn_.endswith(("::insert", "::extend")) and not fb.is_cleanup(bb):
+                ins.append((fb, ffl, bb))
+    for k, (fb, ffl, bb) in enumerate(ins):
+        ors = ffl.origins(fb.term(bb)["args"][1], (bb, None))
         names = sorted(o[2].split("::")[-1] for o in ors if o[0] == "call")
         ok = bool(ors) and all(o[0] == "call" and o[2] in ("graphs::Graph::get_output_node", "graphs::Node::get_node_dependencies")
                                for o in ors)
-        rep.ob("C04.X", "useful-insert#%d" % k, ok, "useful_nodes.insert receives %s" % names, d.loc(bb))
+        rep.ob("C04.X", "useful-insert#%d" % k, ok, "useful_nodes.insert receives %s" % names, fb.loc(bb))
     rep.floor("C04.X", "useful_nodes.insert sites", len(ins), 2)
     # inputs are always kept: under variant Input no path skips
     it = V.Interp(facts, vidx["Input"])
